@@ -55,7 +55,12 @@ def gen_suites():
     return _gs.regenerate_suites()
 
 
-GENERATORS = [gen_dicttls, gen_suites]
+def gen_parrots():
+    import gen_parrots as _gp
+    return _gp.gen_parrots()
+
+
+GENERATORS = [gen_dicttls, gen_suites, gen_parrots]
 
 
 def regenerate(only=None):
